@@ -35,6 +35,12 @@ const (
 	CrashAfter
 	// Hold: the client's RPCs are held back while Start runs in its own goroutine, until Until() or MaxHold.
 	Hold
+	// Delay: the matching REQUEST (not its client) is held back until Until() or MaxHold; the client's other requests go on.
+	// Used to order two concurrent requests of one client, and to stall one request while heart-beats continue.
+	Delay
+	// NoBody: the request is not executed, the client gets a response without a body (`norpc … rpcerr`): a non-fatal
+	// failure of this one request that the sender does not retry by itself.
+	NoBody
 )
 
 // Fault is one entry of the fault script.  It fires at the N-th RPC (0-based, in scheduling order, counted from the moment
@@ -51,7 +57,14 @@ type Fault struct {
 	Until   func() bool    // Hold
 	MaxHold time.Duration  // Hold (default 300ms)
 	Label   string
-	Repeat  bool // DropBefore/DropAfter/RegionErr: applies to every matching request from the index on
+	Repeat  bool // DropBefore/DropAfter/RegionErr/NoBody/Topo: applies to every matching request from the index on
+	// Cancel (DropBefore/DropAfter): called when the fault fires; the client then sees context.Canceled instead of a
+	// transport error — the caller's context ended while the request was outstanding (before it was executed / after it was
+	// executed, the answer not read).
+	Cancel func()
+	// Deliver (kinds that hand an answer to the client): runs in its own goroutine, no lock held, after the request was
+	// executed and recorded and BEFORE its answer is handed to the client (e.g. a clock step at the delivery of a status check).
+	Deliver func()
 
 	at      int // absolute index
 	fired   bool
@@ -208,7 +221,7 @@ func (g *Gate) crashLocked(c *Client) {
 // the fault (if any) that applies to the next RPC of p's client / of the world
 func (g *Gate) faultFor(p *pendingRPC) *Fault {
 	for _, f := range g.faults {
-		if f.fired {
+		if f.fired || f.Kind == Delay {
 			continue
 		}
 		if f.Client != nil && f.Client != p.c {
@@ -227,6 +240,42 @@ func (g *Gate) faultFor(p *pendingRPC) *Fault {
 		return f
 	}
 	return nil
+}
+
+// delayed: an unfired Delay fault applies to p and its condition does not hold yet (g.mu held).
+func (g *Gate) delayed(p *pendingRPC) bool {
+	for _, f := range g.faults {
+		if f.Kind != Delay || f.fired {
+			continue
+		}
+		if f.Client != nil && f.Client != p.c {
+			continue
+		}
+		idx := g.total
+		if f.Client != nil {
+			idx = int(p.c.rpcs.Load())
+		}
+		if idx < f.at || (f.Match != nil && !f.Match(p.kind, p.cmd)) {
+			continue
+		}
+		if !f.started {
+			f.started = true
+			f.since = time.Now()
+			g.w.rec.run.Count("fault:" + faultName(f))
+		}
+		max := f.MaxHold
+		if max == 0 {
+			max = 300 * time.Millisecond
+		}
+		if (f.Until != nil && f.Until()) || time.Since(f.since) > max {
+			if !f.Repeat {
+				f.fired = true
+			}
+			continue
+		}
+		return true
+	}
+	return false
 }
 
 // Pause waits for a short duration by yielding (time.Sleep has a granularity of a millisecond or more on some hosts).
@@ -295,7 +344,7 @@ func (g *Gate) step() {
 	}
 	var cands []*pendingRPC
 	for _, p := range g.pending {
-		if held[p.c] {
+		if held[p.c] || g.delayed(p) {
 			continue
 		}
 		if g.filter != nil && !g.filter(p.c) {
@@ -360,6 +409,15 @@ func (g *Gate) step() {
 	}
 	g.mu.Unlock()
 	if !park {
+		if f != nil && f.Deliver != nil {
+			deliver := f.Deliver
+			go func() {
+				defer func() { recover() }()
+				deliver()
+				p.done <- res
+			}()
+			return
+		}
 		p.done <- res
 	}
 }
@@ -381,7 +439,14 @@ func (g *Gate) execute(id int, p *pendingRPC, f *Fault) (rpcResult, bool) {
 			}
 		case DropBefore:
 			w.emitLocked(fmt.Sprintf("norpc %d %s dropped %s", id, c.name, p.cmd))
+			if f.Cancel != nil {
+				f.Cancel()
+				return rpcResult{nil, context.Canceled}, false
+			}
 			return rpcResult{nil, ErrDropped}, false
+		case NoBody:
+			w.emitLocked(fmt.Sprintf("norpc %d %s rpcerr %s", id, c.name, p.cmd))
+			return rpcResult{&tikvrpc.Response{}, nil}, false
 		case RegionErr:
 			w.emitLocked(fmt.Sprintf("norpc %d %s regionerr:%s %s", id, c.name, f.Class, p.cmd))
 			resp, err := tikvrpc.GenRegionErrorResp(p.req, MakeRegionErr(f.Class, p.req.Context.RegionId))
@@ -434,11 +499,20 @@ func (g *Gate) execute(id int, p *pendingRPC, f *Fault) (rpcResult, bool) {
 			g.parkRest(c)
 			return rpcResult{}, true
 		}
+		if f.Cancel != nil {
+			f.Cancel()
+			return rpcResult{nil, context.Canceled}, false
+		}
 		return rpcResult{nil, ErrDropped}, false
 	}
 	if executed {
 		w.emitLocked("rpc " + line)
 	} else {
+		if f != nil && f.Kind == DropAfter {
+			// the store refused the request (region error) and that answer is lost too: for the client this is a request
+			// that was not executed and whose fate it does not learn
+			line = fmt.Sprintf("norpc %d %s dropped %s", id, c.name, p.cmd)
+		}
 		w.emitLocked(line)
 		if f != nil && f.Kind == CrashAfter {
 			// not executed (region error/rpc error): the client still dies here
@@ -449,6 +523,10 @@ func (g *Gate) execute(id int, p *pendingRPC, f *Fault) (rpcResult, bool) {
 			return rpcResult{}, true
 		}
 		if f != nil && f.Kind == DropAfter {
+			if f.Cancel != nil {
+				f.Cancel()
+				return rpcResult{nil, context.Canceled}, false
+			}
 			return rpcResult{nil, ErrDropped}, false
 		}
 	}
@@ -510,6 +588,10 @@ func faultName(f *Fault) string {
 		return "crash-after"
 	case Hold:
 		return "hold:" + f.Label
+	case Delay:
+		return "delay:" + f.Label
+	case NoBody:
+		return "no-body"
 	}
 	return "?"
 }
